@@ -36,8 +36,17 @@ type world struct {
 	sets   []cty.ValueSet // shared, used read-only by tasks (tasks mutate only their own copies)
 	psets  []cty.PathSet
 	paths  []cty.Path
+	convs  []sharedConv // conversions obtained once by the main goroutine and applied by every task
 	byKind map[Kind][]int // pool indices by kind of (unmarked) type
 	marks  []cty.ValueMarks
+}
+
+// sharedConv is a conversion the convert package handed out once; like the function library's Function
+// variables it is a library-made object that several callers apply.
+type sharedConv struct {
+	in, out cty.Type
+	conv    convert.Conversion
+	src     int // pool index of a value of type in
 }
 
 type ref struct {
@@ -709,6 +718,23 @@ func init() {
 		}
 		return opRes{vals: out, s: cty.VerifFingerprintType(ty)}
 	}, selAny, selAny)
+	defOp("SharedConversion", "", func(t *taskState, a [3]cty.Value, p [3]int) opRes {
+		if len(t.w.convs) == 0 {
+			return sres("no shared conversions")
+		}
+		sc := t.w.convs[p[0]%len(t.w.convs)]
+		var in cty.Value
+		switch p[1] % 4 {
+		case 0:
+			in = cty.NullVal(sc.in)
+		case 1:
+			in = cty.UnknownVal(sc.in)
+		default:
+			in = t.w.vals[sc.src]
+		}
+		r, err := sc.conv(in)
+		return valErr(r, err)
+	}, selAny)
 	// ---- functions
 	defOp("StdlibCall", "", func(t *taskState, a [3]cty.Value, p [3]int) opRes {
 		f := stdlibFuncs[p[0]%len(stdlibFuncs)]
@@ -1033,6 +1059,29 @@ func c20GenWorld(c *Ctx) *world {
 		// the wrapped set is a pool value too
 		w.vals = append(w.vals, cty.SetValFromValueSet(s))
 		w.byKind[KSet] = append(w.byKind[KSet], len(w.vals)-1)
+	}
+	// shared conversions: from the type of a pool value to a drawn or derived target
+	nConv := c.G(5)
+	for i := 0; i < nConv; i++ {
+		src := c.G(len(w.descs))
+		in := w.vals[src].Type()
+		var out cty.Type
+		if c.G(2) == 0 {
+			out = w.types[c.G(len(w.types))]
+		} else {
+			out = convTarget(c, w.descs[src].T, 3).Cty()
+		}
+		var conv convert.Conversion
+		unsafe := c.G(2) == 0
+		if catch(func() {
+			if unsafe {
+				conv = convert.GetConversionUnsafe(in, out)
+			} else {
+				conv = convert.GetConversion(in, out)
+			}
+		}) == nil && conv != nil {
+			w.convs = append(w.convs, sharedConv{in: in, out: out, conv: conv, src: src})
+		}
 	}
 	// paths and shared path sets
 	w.paths = []cty.Path{
